@@ -4,8 +4,10 @@
   (`import Umya.Thm.C03`) sees every `C03_…` theorem:
     * `Umya/Thm/C03Cell.lean`   channels (C03_attr, C03_text), one cell element (C03_cell, …), positions
                                 (C03_positions), column spans, shared-formula reference translation;
+    * `Umya/Thm/C03Book.lean`   style resolution through cellXfs (C03_style_resolution, C03_style_cell, …);
     * `Umya/Thm/C03Sheet.lean`  the whole `<sheetData>` (C03_sheet, …), the shared-strings part (C03_sst),
                                 relationships / hyperlinks / merges, sheet list, defined names.
 -/
 import Umya.Thm.C03Cell
 import Umya.Thm.C03Sheet
+import Umya.Thm.C03Book
